@@ -54,6 +54,12 @@ def mk(subset, ending, meddle=False):
             acts.append('gc_debug')
         if 'warnings' in subset:
             acts.append('warn_reset')
+        else:
+            # no warnings argument: the runner still brackets the run with warnings.catch_warnings(); sometimes the
+            # interpreter's warnings were configured by the user (sys.warnoptions not empty)
+            acts.append('warn_filter')
+            if len(subset) % 2 == 0:
+                world['pythonwarnings'] = 'ignore::ImportWarning'
         if 'profile' in subset:
             # the directory the profiler is to write its data to disappears during the run: the run ends with an exception
             # from the feature that cannot finish, but whatever the other features changed is restored all the same
@@ -205,7 +211,7 @@ def shrink_candidates(c):
         yield mk(set(c['subset']), 'normal')
 
 
-TECHNIQUE = ('Coq proof that nested save/install/restore brackets give back the global state for every feature list and every '
+TECHNIQUE = ('Coq proofs that the set-up/tear-down schedule of Runner.run (global/late set-up, early/global tear-down; RestorePhases.v) restores every managed field whatever the tests do, and that nested save/install/restore brackets give back the global state for every feature list and every '
              'restoring test phase (Restore.v, RestoreFacts.v, P_C18.v) + correspondence check on snapshots of the real interpreter state '
              'before / during / after in-process runs')
 LEVEL_TEXT = ('Theorem over all feature subsets, orders and endings; the configuration space of the real runner is finite and is '
